@@ -372,6 +372,14 @@ func (its *jsonPrimitive) String() string {
 func (its *jsonPrimitive) createJSONTypeFromReflectValue(parent jsonType, rv reflect.Value, ts *model.Timestamp) jsonType {
 	kind := rv.Kind()
 	switch kind {
+	case reflect.Invalid:
+		return nil // a null nested in a value (nil interface): there is no value to create
+	case reflect.Ptr, reflect.Interface, reflect.Slice, reflect.Map:
+		if rv.IsNil() {
+			return nil // encoded as JSON null on the wire: every replica skips it alike
+		}
+	}
+	switch kind {
 	case reflect.Struct:
 		toMap, err := utils.StructToMap(rv.Interface())
 		if err != nil {
